@@ -470,8 +470,9 @@ func maybeEmitText(l *lexer, backup int) {
 // it ignores line comments (//) and block comments (/* */).
 func lexText(l *lexer) stateFn {
 	var r, lastChar rune
-	for {
-		lastChar = r
+	var hasLast = false // does a character of this text run precede r? (it may be a NUL)
+	for first := true; ; first = false {
+		lastChar, hasLast = r, !first
 		r = l.next()
 
 		// comment / soydoc handling
@@ -480,13 +481,16 @@ func lexText(l *lexer) stateFn {
 			case '/':
 				// '//' only begins a comment if the previous character is whitespace,
 				// or if we are the start of input.
-				var lastCharEmitted = lastChar
-				if lastChar == 0 && l.lastEmit.val != "" {
-					lastCharEmitted = rune(l.lastEmit.val[len(l.lastEmit.val)-1])
+				var lastCharEmitted, atStart = lastChar, false
+				if !hasLast {
+					atStart = l.lastEmit.val == ""
+					if !atStart {
+						lastCharEmitted = rune(l.lastEmit.val[len(l.lastEmit.val)-1])
+					}
 				}
-				if lastCharEmitted == 0 || isSpaceEOL(lastCharEmitted) {
+				if atStart || isSpaceEOL(lastCharEmitted) {
 					maybeEmitText(l, 3)
-					if lastChar != 0 {
+					if hasLast {
 						l.start++ // ignore the preceding space, if present.
 					}
 					return lexLineComment(l)
